@@ -531,7 +531,7 @@ func ruleLoadDirectoryCallback(c *Ctx) {
 		return
 	}
 	c.Fn(shortFn(cb))
-	paths, err := Enumerate(cb, SymConfig{Prog: c.P, MaxDepth: 1, Collapse: true, OnlyInline: map[*ssa.Function]bool{}})
+	paths, err := Enumerate(cb, SymConfig{Prog: c.P, MaxDepth: 1, Collapse: true, OnlyInline: valueHelpers(c.P)}) // (a file-name test in a value helper is seen as its conditions)
 	if !c.Require(err == nil, "R12.3", "config.loadDirectory/callback", fmt.Sprint(err)) {
 		return
 	}
